@@ -158,8 +158,26 @@ def case_strategy():
     def block(draw, depth, counter):
         out = []
         for _ in range(draw(st.integers(1, 4))):
-            k = draw(st.sampled_from(["stmt", "stmt", "stmt", "comment", "blank", "sentinel", "cond" if depth > 0 else "stmt", "define"]))
-            if k == "stmt":
+            k = draw(st.sampled_from(["stmt", "stmt", "stmt", "comment", "blank", "sentinel", "cond" if depth > 0 else "stmt", "define", "condstmt"]))
+            if k == "condstmt":
+                # the optional-argument idiom: conditional directives between the lines of one continued statement
+                counter[0] += 1
+                n = draw(st.sampled_from(["A", "B", "C"]))
+                ind = draw(st.sampled_from(["", "  "]))
+                amp = draw(st.sampled_from(["", "& "]))
+                out.append((f"{ind}call c_{counter[0]}(x, &" + draw(trailing), "code"))
+                if draw(st.booleans()):
+                    out.append((f"{ind}     {amp}y, &", "code"))
+                out.append((draw(st.sampled_from([f"#ifdef {n}", f"#ifndef {n}", f"#if defined({n})"])), "directive"))
+                out.append((f"{ind}     {amp}{draw(expr_tok)}, &" + draw(trailing), "code"))
+                if draw(st.booleans()):
+                    out.append((ind + draw(st.sampled_from(COMMENTS)), "comment"))
+                if draw(st.booleans()):
+                    out.append(("#else", "directive"))
+                    out.append((f"{ind}     {amp}0, &", "code"))
+                out.append(("#endif", "directive"))
+                out.append((f"{ind}     {amp}y)", "code"))
+            elif k == "stmt":
                 counter[0] += 1
                 out += draw(statement(counter[0]))
             elif k == "comment":
